@@ -50,16 +50,27 @@ def instances(tier, seed):
             out.append(("core", dict(kind="toggle", callable=ck, tc=tc, states=[1, 1, 0], body_raises=True)))
             for pos in ("above", "below"):
                 out.append(("core", dict(kind="notypecheck", callable=ck, tc=tc, pos=pos)))
+    # a functools.wraps wrapper that supplies an argument itself: its advertised signature does not
+    # describe how it is called; with checking off nothing may look at that signature
+    for tc in ("typeguard", "beartype"):
+        for states in ([0, 1, 1], [1, 1, 1]):
+            out.append(("core", dict(kind="toggle", callable="wrapped", tc=tc, states=states, body_raises=False)))
+        for pos in ("above", "below"):
+            out.append(("core", dict(kind="notypecheck", callable="wrapped", tc=tc, pos=pos)))
+    # the switch toggled while a jaxtyped("context") block is open
+    for where in ("top", "infunc"):
+        for enter, leave in itertools.product((0, 1), repeat=2):
+            out.append(("core", dict(kind="ctxtoggle", where=where, enter=enter, leave=leave)))
     return out
 
 
 BOUNDS = dict(values="every string of length <=5 (thorough 6) over the alphabet %r through config.update (both switches) and through the JAXTYPING_DISABLE environment route; non-string values bool/int/None/float/bytes/list" % "".join(sorted(set(ALPHA))),
-              toggling="all 8 on/off assignments to (before decoration, between decoration and first call, between first and second call) x {function, method, dataclass, staticmethod} x {typeguard, beartype}; typing.no_type_check above / below",
+              toggling="all 8 on/off assignments to (before decoration, between decoration and first call, between first and second call) x {function, method, dataclass, staticmethod} x {typeguard, beartype}; typing.no_type_check above / below; a functools.wraps wrapper with a misleading signature; non-binding calls with checking off; the switch toggled inside an open jaxtyped('context') block (top level / inside a decorated call, all 4 enter/leave assignments)",
               shapes="two array arguments + returned array, rank 0..2, sizes unbounded")
 STUBS = ["os.environ inside jaxtyping._config -> dict stub (mapping str -> str contract)", "SymStr"] + c01.STUBS
 ASSUMPTIONS = ["ASCII only: str.lower() on non-ASCII case mappings is outside the claim",
                "'same exception' = same class and args, not same traceback"]
-REQUIRED_LABELS = {"value", "nonstring", "disabled-is-plain", "enabled-checks", "notypecheck-is-plain"}
+REQUIRED_LABELS = {"value", "nonstring", "disabled-is-plain", "enabled-checks", "notypecheck-is-plain", "ctx-toggle"}
 REQUIRED_WITNESS = {"val-True", "val-False", "val-ValueError", "call-disabled", "call-enabled-OK", "call-enabled-TCE"}
 BUDGET_S = {"quick": 120, "thorough": 900}
 setup_worker = c01.setup_worker
@@ -145,8 +156,8 @@ def ref_value(s):
 _built = {}
 
 
-def build_callable(inst, ARR):
-    """(re)decorates on every call: decoration time matters here"""
+def build_callable(inst, ARR, plain=False):
+    """(re)decorates on every call: decoration time matters here.  plain=True: the undecorated twin."""
     import dataclasses
     import jaxtyping as jt
     A, Bn, R = jt.Float[ARR, "a b"], jt.Float[ARR, "b c"], jt.Float[ARR, "a c"]
@@ -156,11 +167,17 @@ def build_callable(inst, ARR):
     dec = "@jt.jaxtyped(typechecker=tc)"
     if inst["kind"] == "notypecheck":
         dec = ("@typing.no_type_check\n" + dec) if inst["pos"] == "above" else (dec + "\n@typing.no_type_check")
+    if plain:
+        dec = "# plain"
     ind = lambda s, n=4: "\n".join(" " * n + l for l in s.split("\n"))
     if ck == "function":
         src = f"{dec}\ndef f(x: A, y: B) -> R:\n    return _body()\ncall = f\n"
     elif ck == "method":
         src = f"class K:\n{ind(dec)}\n    def f(self, x: A, y: B) -> R:\n        return _body()\ncall = K().f\n"
+    elif ck == "wrapped":
+        g["functools"] = __import__("functools")
+        src = ("def inner(x: A, y: B, extra) -> R:\n    return _body()\n"
+               f"{dec}\n@functools.wraps(inner)\ndef f(x, y):\n    return inner(x, y, 1)\ncall = f\n")
     elif ck == "staticmethod":
         src = f"class K:\n    @staticmethod\n{ind(dec)}\n    def f(x: A, y: B) -> R:\n        return _body()\ncall = K.f\n"
     else:
@@ -189,6 +206,8 @@ def scenario(inst, V):
         exp = {"True": "True", "False": "False"}.get(inst["what"], "ValueError")
         V.check("nonstring", got == exp, got=got, expected=exp, value=repr(v))
         return dict(got=got)
+    if kind == "ctxtoggle":
+        return scenario_ctxtoggle(inst, V)
     # ---- behaviour
     mr = 2
     shapes = []
@@ -234,6 +253,14 @@ def scenario(inst, V):
                 ok = ok and fnlib.HOLD["probe_result"] == (True, True)
                 V.check("notypecheck-is-plain" if kind == "notypecheck" else "disabled-is-plain", ok,
                         got=kindr, calls=ncalls, call=ci, states=states, body_checks=fnlib.HOLD["probe_result"])
+                # a call that does not bind: exactly the plain function's own TypeError (class and text)
+                twin = build_callable(inst, V.ARR, plain=True)
+                bad = []
+                for f_ in (twin, fn):
+                    k_, e_ = fnlib.call(f_, ["x"], [x], "pos")
+                    bad.append((k_, tuple(map(str, getattr(e_, "args", ()))) if k_.startswith("EXC") else None))
+                V.check("notypecheck-is-plain" if kind == "notypecheck" else "disabled-is-plain", bad[0] == bad[1],
+                        what="non-binding call", plain=bad[0], decorated=bad[1])
             else:
                 V.reach("call-enabled-" + kindr)
                 if inst.get("body_raises"):
@@ -266,6 +293,68 @@ def scenario(inst, V):
         jt.config.update("jaxtyping_disable", False)
         fnlib.HOLD["body_exc"] = None
     return dict(calls=obs)
+
+
+def scenario_ctxtoggle(inst, V):
+    """jaxtyped("context") pushes on entry and pops on exit whatever the switch says at either
+    moment: toggling inside the block neither leaks its bindings nor pops somebody else's."""
+    import jaxtyping as jt
+    from jaxtyping import jaxtyped
+    N = jt.Float[V.ARR, "n"]
+    m, k, xs = V.int("m", 0), V.int("k", 0), V.int("xs", 0)
+    obs = {}
+
+    def block():
+        jt.config.update("jaxtyping_disable", bool(inst["enter"]))
+        with jaxtyped("context"):
+            r = c01.observe_check(V.arr([m]), N)
+            V.check("ctx-toggle", r == D.ACC, what="first use of n inside the block", got=str(r))
+            jt.config.update("jaxtyping_disable", bool(inst["leave"]))
+        jt.config.update("jaxtyping_disable", False)
+
+    try:
+        if inst["where"] == "top":
+            try:
+                block()
+                obs["block"] = "ok"
+            except (core.PathAbort, core.Unsupported, core.Nondeterminism, core.StopPath):
+                raise
+            except Exception as e:  # noqa
+                obs["block"] = "EXC:" + type(e).__name__
+            V.check("ctx-toggle", obs["block"] == "ok", what="the block completes", got=obs["block"])
+        else:
+            @jaxtyped(typechecker=None)
+            def f(x: N):
+                r0 = c01.observe_check(x, N)          # binds n = xs in f's frame
+                block()
+                r1 = c01.observe_check(V.arr([k]), N)  # f's frame again: accepted iff k == xs
+                return r0, r1
+            try:
+                r0, r1 = f(V.arr([xs]))
+                obs["block"] = "ok"
+                V.check("ctx-toggle", r0 == D.ACC and r1 in (D.ACC, D.REJ), what="verdicts", r0=str(r0), r1=str(r1))
+                V.check("ctx-toggle", (core.lift(k) == core.lift(xs)) if r1 == D.ACC else (core.lift(k) != core.lift(xs)),
+                        what="the enclosing call's binding of n is intact after the block", r1=str(r1))
+            except (core.PathAbort, core.Unsupported, core.Nondeterminism, core.StopPath):
+                raise
+            except Exception as e:  # noqa
+                obs["block"] = "EXC:" + type(e).__name__
+                V.check("ctx-toggle", False, what="the enclosing call completes", got=obs["block"])
+        # afterwards, with checking on: nothing is bound at top level and checks are stateless
+        jt.config.update("jaxtyping_disable", False)
+        impl = base.bindings()
+        r = c01.observe_check(V.arr([k]), N)
+        V.check("ctx-toggle", not impl["single"] and r == D.ACC, what="top level stateless afterwards",
+                bindings=repr(impl["single"]), got=str(r))
+    finally:
+        jt.config.update("jaxtyping_disable", False)
+        # a leaked frame would poison later instances of this worker: drop whatever is left
+        try:
+            from jaxtyping._storage import _shape_storage
+            getattr(_shape_storage, "memo_stack", []).clear()
+        except Exception:  # noqa
+            pass
+    return obs
 
 
 def _key(inst, label, vals, info):
